@@ -353,6 +353,12 @@ fn alist_entries() -> Vec<RV> {
         RV::cons(RV::sym("other"), RV::Int(5)),
         RV::cons(RV::str("other"), RV::Null),
         RV::cons(RV::list(vec![RV::Int(1)]), RV::Int(7)),
+        // compound keys that differ only in their last element / in their car / in their length
+        RV::cons(RV::list(vec![RV::Int(1), RV::Int(2)]), RV::Int(12)),
+        RV::cons(RV::list(vec![RV::Int(1), RV::Int(3)]), RV::Int(13)),
+        RV::cons(RV::cons(RV::sym("a"), RV::Int(1)), RV::Int(14)),
+        RV::cons(RV::cons(RV::sym("b"), RV::Int(1)), RV::Int(15)),
+        RV::cons(RV::Vector(vec![RV::Int(1), RV::Int(2)]), RV::Int(16)),
         RV::Int(9),
         RV::Null,
         RV::sym("k"),
@@ -413,7 +419,26 @@ fn check_alist(v: &mut V, entries: &[RV], t: &RV) {
             v.fail("index[str]", format!("[{:?}] disagrees with {}", name, e2));
         }
     }
-    for key in [RV::str("k"), RV::sym("k"), RV::kw("k"), RV::Int(42), RV::Int(43), RV::list(vec![RV::Int(1)]), RV::Null] {
+    for key in [
+        RV::str("k"),
+        RV::sym("k"),
+        RV::kw("k"),
+        RV::Int(42),
+        RV::Int(43),
+        RV::list(vec![RV::Int(1)]),
+        RV::Null,
+        RV::list(vec![RV::Int(1), RV::Int(2)]),
+        RV::list(vec![RV::Int(1), RV::Int(3)]),
+        RV::list(vec![RV::Int(1), RV::Int(4)]),
+        RV::list(vec![RV::Int(2), RV::Int(3)]),
+        RV::append(vec![RV::Int(1)], RV::Int(2)),
+        RV::cons(RV::sym("a"), RV::Int(1)),
+        RV::cons(RV::sym("b"), RV::Int(1)),
+        RV::cons(RV::sym("c"), RV::Int(1)),
+        RV::cons(RV::sym("a"), RV::Int(2)),
+        RV::Vector(vec![RV::Int(1), RV::Int(2)]),
+        RV::Vector(vec![RV::Int(1), RV::Int(3)]),
+    ] {
         let expect = by_value(&key);
         let kv = key.to_value();
         let g = val.get(kv.clone()).map(RV::from_value);
